@@ -54,6 +54,11 @@ def validate_consistent_type_annotations(graph: nx.DiGraph) -> None:
             for parameter_name, input_type in dep.parameter_annotations.items():
                 if parameter_name not in output_types:
                     continue
+                if parameter_name in dep._bound:
+                    # NOTE: A bound value replaces the output of `node` (the graph has no
+                    # edge for this parameter), the edge `node -> dep` exists because of
+                    # another output of `node`.
+                    continue
                 if _mapspec_is_generated(node, dep):
                     # NOTE: We cannot check the type-hints for auto-generated MapSpecs
                     continue
